@@ -286,6 +286,35 @@ def search(ctx):
                 "raises " + h_auto[1] if isinstance(h_auto, tuple) else "differs from the result of naming Lorenz-Mie"), dict(kind="rule-subclass", cls="LayeredSphere"))
     except Exception as ex:
         ctx.notes.append("LayeredSphere auto probe raised %r" % (ex,))
+    # a scatterer described with PRIORS (calc_* substitutes each prior's guess): with no theory named the calculation is the
+    # documented rule's theory for the guess scatterer, identical to naming it
+    from holopy.core.prior import Uniform as _U, Gaussian as _G
+    from holopy.scattering import calc_intensity as _ci
+    for j in range(ctx.n(3, 12)):
+        rA, rB = float(rng.uniform(0.25, 0.4)), float(rng.uniform(0.25, 0.4))
+        sep = float(rng.uniform(1.0, 2.0)) if j % 2 == 0 else float(rng.uniform(14.0, 20.0))
+        plain = Spheres([Sphere(n=1.55, r=rA, center=(0.0, 0.0, 6.0)), Sphere(n=1.6, r=rB, center=(sep, 0.2, 6.5))], warn=False)
+        withp = Spheres([Sphere(n=1.55, r=_U(0.1, 0.6, guess=rA), center=(0.0, 0.0, 6.0)), Sphere(n=_G(1.6, 0.05), r=_U(0.1, 0.6, guess=rB), center=(sep, 0.2, 6.5))], warn=False)
+        want = "Multisphere" if sep <= 30 * max(rA, rB) else "Mie"
+        dj = detector_grid((3, 2), 0.4)
+        okw = dict(medium_index=1.33, illum_wavelen=0.66, illum_polarization=(1, 0))
+        ctx.tried("auto-with-priors", (round(sep, 3), want, j))
+        info = dict(kind="auto-with-priors", radii=[rA, rB], separation=sep, rule=want)
+        try:
+            th_named = Multisphere() if want == "Multisphere" else Mie()
+            for fname, fn in (("calc_holo", calc_holo), ("calc_field", calc_field), ("calc_intensity", _ci)):
+                ref = fn(dj, plain, theory=th_named, **okw).values
+                got = impl_call(lambda: fn(dj, withp, **okw).values)
+                if isinstance(got, tuple) and len(got) == 2 and got[0] == "err":
+                    ctx.violation("C09:auto-with-priors-raises:%s" % got[1], "%s with no theory named on a cluster whose radii are priors raised %s" % (fname, got[1]), dict(function=fname, **info))
+                    break
+                if not np.array_equal(got, ref):
+                    ctx.violation("C09:auto-with-priors", "%s with no theory named on a cluster whose radii are priors (guesses %.3f, %.3f, separation %.2f) differs from naming %s on the guess scatterer by %.3g" % (
+                        fname, rA, rB, sep, want, float(np.abs(got - ref).max())), dict(function=fname, **info))
+                    break
+        except Exception as ex:
+            if type(ex).__name__ != "MultisphereFailure":
+                ctx.violation("C09:auto-with-priors-raises:%s" % type(ex).__name__, "cluster described with priors raised %r" % (ex,), info)
     # other shapes and non-scatterers
     for obj, want in ((Ellipsoid(n=1.5, r=(0.3, 0.4, 0.5), center=(0, 0, 1)), "DDA" if HAVE_ADDA else "err:DependencyMissing"),
                       ("not a scatterer", "err:AutoTheoryFailed"), (Spheroid(n=1.5, r=(0.4, 0.6), center=(0, 0, 1)), "Tmatrix"),
